@@ -191,6 +191,11 @@ Definition from_str (s : str) : res tree :=
   | Err x => Err x | Panic x => Panic x | OutOfFuel => OutOfFuel
   end.
 
+(* Deb822::read / read_relaxed: read_to_string (the harness hands over valid UTF-8, so no I/O error),
+   then from_str / from_str_relaxed of the WHOLE buffer, nothing stripped *)
+Definition read (s : str) : res tree := from_str s.
+Definition read_relaxed (s : str) : res (tree * nat) := from_str_relaxed s.
+
 (* ---- accessors (Deb822::paragraphs, Paragraph::{entries,items,get,get_all,keys,contains_key},
         Entry::{key,value}) ---- *)
 Definition is_kind (k : kind) (e : tree) : bool := kind_eqb (ekind e) k.
